@@ -30,7 +30,7 @@ Driver operations for the peer-management models (C18). Core Lean only.
      answer: <admitted|rejected:reason|-> conns=<n> live=<n> closed=<n> dials=<n> asks=<n> out=<n> inb=<n> n=<Count()> cc=[…] og=[…]
              (cc over hosts < 32, og over groups < 8)
 
-  am new <banTicks> <maxRefs> | am add <addr> <bucket|-> | am good <addr> <triedBucket> | am ban <addr> | am clock <ticks> | am dump
+  am new <banTicks> <maxRefs> | am add <addr> <bucket> <dice:0|1> | am good <addr> <triedBucket> | am ban <addr> | am clock <ticks> | am dump
      answer: nNew=<n> nTried=<n> idx=[addr:refs:tried,…] new=[bucket:addr,…] tried=[bucket:addr,…] ban=[addr:remaining,…]
   am get        -> the outcomes GetAddress can have for the two values of its coin: nil | tried | new | hang, e.g. `tried|new`
 
@@ -166,8 +166,7 @@ def handle (st : S) : List String → Option (S × String)
   | ["am", "new", b, m] => do
     let cfg : AddrMgr.Cfg := { banT := (← b.toNat?), maxRefs := ((← m.toNat?) : Nat) }
     pure ({ st with acfg := cfg, ast := {} }, amLine {})
-  | ["am", "add", a, "-"] => do amStep st (.add (← a.toNat?) none)
-  | ["am", "add", a, b] => do amStep st (.add (← a.toNat?) (some (← b.toNat?)))
+  | ["am", "add", a, b, d] => do amStep st (.add (← a.toNat?) (← b.toNat?) ((← d.toNat?) != 0))
   | ["am", "good", a, t] => do amStep st (.good (← a.toNat?) (← t.toNat?))
   | ["am", "ban", a] => do amStep st (.ban (← a.toNat?))
   | ["am", "clock", d] => do amStep st (.clock (← d.toNat?))
